@@ -18,7 +18,9 @@ TRUSTED_BASE = [
 ]
 
 SML_PROOFS = ["SmlNumbers.v", "SmlProofs.v"]
+SML_DEEP = SML_PROOFS + ["LexProofs.v", "ParseProofs.v"]
 AST_PROOFS = ["FloatProofs.v", "AstProofs.v", "FillProofs.v"]
+FILL_DEEP = ["FillCompose.v", "EllipsisProofs.v", "PrintProofs.v"]
 WIRE_PROOFS = ["HeaderProofs.v", "WireSpec.v", "WireLemmas.v", "WireValues.v", "WireEnc.v", "WireDec.v", "MsgProofs.v"]
 
 PROPS = {
@@ -66,7 +68,7 @@ PROPS = {
         decisive_why="C05_int/C05_uint/C05_bin/C05_quoted: the model stores the value the literal denotes or records an error; a different stored value or a missing error on the library side is a silent substitution",
     ),
     "C06": dict(
-        prop_file="props/C06.v", proof_files=SML_PROOFS, tie_files=["TablesTie.v"],
+        prop_file="props/C06.v", proof_files=SML_DEEP, tie_files=["TablesTie.v"],
         suites=["C06"],
         decisive=["kind"],
         decisive_why="an escaping panic (kind P) where the model returns normally",
@@ -101,14 +103,14 @@ PROPS = {
                      "TotalAlloc is measured per input in a worker subprocess; the linear bound (2048 bytes per input byte + 64 KiB) is about 4x the worst ratio seen on the clean tree"],
     ),
     "C09": dict(
-        prop_file="props/C09.v", proof_files=WIRE_PROOFS + AST_PROOFS, tie_files=["TablesTie.v"],
+        prop_file="props/C09.v", proof_files=WIRE_PROOFS + AST_PROOFS + ["FillCompose.v"], tie_files=["TablesTie.v"],
         suites=["C09"],
         decisive=["kind"],
         decisive_why="a fill that is refused by one side and accepted by the other contradicts C09_subst (refusal coincides with the factory's)",
         assumptions=["composition law for list templates: Go-side monitor + correspondence (C09_compose_partial), proved for value items"],
     ),
     "C10": dict(
-        prop_file="props/C10.v", proof_files=WIRE_PROOFS + AST_PROOFS, tie_files=["TablesTie.v"],
+        prop_file="props/C10.v", proof_files=WIRE_PROOFS + AST_PROOFS + ["EllipsisProofs.v"], tie_files=["TablesTie.v"],
         suites=["C10"],
         decisive=[],
         assumptions=["C10_refines (imperative expander = declarative expander) is not proved yet; the imperative model is tied to the code by exhaustive small templates"],
@@ -137,7 +139,7 @@ PROPS = {
         rule="boundary grid: every integer boundary (2^7, 2^8, 2^15, 2^16, 2^31, 2^32, 2^53, 2^63, 2^64 +-2 and negatives) in every Go integer type that holds it x every factory x widths 1,2,4,8 and invalid widths; float boundaries around MaxFloat32, subnormals, ties, Inf/NaN; every byte in ASCII items; name pool; message field grid; plus random float values",
     ),
     "C16": dict(
-        prop_file="props/C16.v", proof_files=WIRE_PROOFS + AST_PROOFS, tie_files=["TablesTie.v"],
+        prop_file="props/C16.v", proof_files=WIRE_PROOFS + AST_PROOFS + ["PrintProofs.v"], tie_files=["TablesTie.v"],
         suites=["C16"],
         decisive=["vars", "size", "entries"],
         decisive_why="C16_nodup / C16_encodable / C16_size pin the model's variable list, encodability and size",
@@ -145,8 +147,8 @@ PROPS = {
     "C18": dict(
         prop_file="props/C18.v", proof_files=WIRE_PROOFS + AST_PROOFS, tie_files=["TablesTie.v"],
         suites=["C18"],
-        decisive=["kind", "name", "stream", "function", "wbit", "dir", "sid", "sys", "header", "entries"],
-        decisive_why="C18_setwaitbit / C18_setsession / C18_fill: the model's producers change exactly the named fields",
+        decisive=["kind", "name", "stream", "function", "wbit", "dir", "sid", "sys", "header", "entries", "vars", "str", "bytes"],
+        decisive_why="C18_setwaitbit / C18_setsession / C18_fill: the model's producers change exactly the named fields; the result's item is pinned by C18_fill, hence its variable list, printed form and encoding",
     ),
     "C13": dict(
         prop_file="props/C13.v", proof_files=WIRE_PROOFS, tie_files=["TablesTie.v"],
